@@ -183,14 +183,16 @@ def ownWait (t1 : Nat → Option REntry) (r cr : Nat) : (Nat → Option REntry) 
       else (t1, [.fault r])
   | none => (t1, [.fault r])
 
-/-- the event that was set may belong to another exchange already waiting on it -/
-def wakeOther (t0 t2 : Nat → Option REntry) (cr : Nat) (k : Option Nat) (v : Nat) :
+/-- the event that was set may belong to another exchange already waiting on it (phase 2);
+    `t2` is the table after the popped request went on (its own entry is never the one woken:
+    `c = cr` is handled by `ownWait`) -/
+def wakeOther (t2 : Nat → Option REntry) (cr : Nat) (k : Option Nat) (v : Nat) :
     (Nat → Option REntry) × List Out :=
   match k with
   | some c =>
       if c = cr then (t2, [])
       else
-        match t0 c with
+        match t2 c with
         | some e =>
             match e.st with
             | .p2 => (upd t2 c none, [.deliver e.req (some c) v])
@@ -212,7 +214,7 @@ def rstep (s : RState) : Ev → RState × List Out
       | (h', [.deliver r _ _]) =>
           let t1 := store s.tbl k v
           let own := ownWait t1 r (s.kof r)
-          let oth := wakeOther s.tbl own.1 (s.kof r) k v
+          let oth := wakeOther own.1 (s.kof r) k v
           ({ s with http := h', tbl := oth.1 }, own.2 ++ oth.2)
       | (h', o) => ({ s with http := h' }, o)
   | .timeout r =>
